@@ -167,4 +167,36 @@ func init() {
 		Outside: []string{"actual goroutine interleavings and the Go race detector: concurrency safety is concluded only through the sufficient condition 'the operations store nothing into shared state' (then every interleaving is race-free and returns the sequential results); a non-empty write set with repeatable results would be reported as undecided, not as a violation", "Verify (needs the PKCS#7 model)"},
 		Assumptions: commonAssumptions,
 	}
+	registry["C11"] = &Property{
+		Quick: []HarnessSpec{
+			{Name: "VC11_WriteTrace", Params: map[string]int{"vsymC11Name": 4, "vsymC11Value": 4096}, NeedReach: []string{"end"}},
+			{Name: "VC11_Read", Params: map[string]int{"vsymC11Name": 4, "vsymC11Value": 4096}, NeedReach: []string{"end", "absent", "short", "wrongattrs"}},
+			{Name: "VC11_Predefined", NeedReach: []string{"end"}},
+		},
+		Thorough: []HarnessSpec{
+			{Name: "VC11_WriteTrace", Params: map[string]int{"vsymC11Name": 8, "vsymC11Value": 1 << 16}, NeedReach: []string{"end"}},
+			{Name: "VC11_Read", Params: map[string]int{"vsymC11Name": 8, "vsymC11Value": 1 << 16}, NeedReach: []string{"end", "absent", "short", "wrongattrs"}},
+			{Name: "VC11_Predefined", NeedReach: []string{"end"}},
+		},
+		Bounds: []string{"object API (EFIFS.WriteVar / GetVarWithAttributes over fswrapper): symbolic GUID (all 2^128), symbolic 32-bit attribute mask, name = 4 (quick) / 8 symbolic ASCII letters or digits, value / stored file = symbolic bytes of symbolic length <= 4096 (quick) / 65536; every predefined variable definition by name",
+			"file system = recording afero.Fs written in the harness (interpreted): the complete operation trace is asserted"},
+		Outside: []string{"the legacy package-level API (efi/attributes with efi/fs and the immutable-flag ioctl)", "efivars directories other than the default", "names with characters outside [A-Za-z0-9] (path.Clean is interpreted; such characters are excluded by assumption)"},
+		Assumptions: commonAssumptions,
+	}
+	registry["C12"] = &Property{
+		Quick:    []HarnessSpec{{Name: "VC12_PlainRegister", Params: map[string]int{"vsymC12Max": 8}, MaxPaths: 200000, NeedReach: []string{"end"}}},
+		Thorough: []HarnessSpec{{Name: "VC12_PlainRegister", Params: map[string]int{"vsymC12Max": 40}, MaxPaths: 2000000, TimeoutSec: 3000, NeedReach: []string{"end"}}},
+		Bounds: []string{"inductive step on the in-memory store (real afero.MemMapFs interpreted): variable A holds an arbitrary previous value, variable B an arbitrary value; one plain WriteVar of a value of any length 0..8 (quick) / 0..40 bytes (all length combinations case-split, contents symbolic); read of A returns exactly the new value, B unchanged"},
+		Outside: []string{"signed updates through WriteSignedUpdate (need the PKCS#7 model)", "APPEND_WRITE", "values longer than the bound"},
+		Assumptions: commonAssumptions,
+	}
+	registry["C15"] = &Property{
+		Quick: []HarnessSpec{
+			{Name: "VC15_WriteFaults", Params: map[string]int{"vsymC11Name": 2, "vsymC11Value": 4096}, NeedReach: []string{"end", "faulted", "clean"}},
+			{Name: "VC15_ReadFaults", Params: map[string]int{"vsymC11Name": 2, "vsymC11Value": 4096}, NeedReach: []string{"end", "faulted"}},
+		},
+		Bounds: []string{"write variable: every position of the call sequence OpenFile / Write / Close may fail (symbolic fault bits, all combinations), and Write may be short by any symbolic count; read variable: Open / Stat / every Read may fail", "asserted: any injected fault => non-nil error, nothing decoded after a failed read"},
+		Outside: []string{"signer failures, image reader failures and signed updates (need the PKCS#7 model)", "a failing Close after a complete read is not asserted (it does not invalidate the data read)"},
+		Assumptions: commonAssumptions,
+	}
 }
